@@ -18,7 +18,7 @@ from elementpath.exceptions import ElementPathValueError
 from elementpath.datatypes import AnyAtomicType
 from elementpath.sequences import xlist
 from elementpath.helpers import split_function_test
-from elementpath.sequence_types import match_sequence_type
+from elementpath.sequence_types import match_sequence_type, is_sequence_type_restriction
 from elementpath.xpath_context import XPathSchemaContext
 from .functions import XPathFunction
 
@@ -248,12 +248,13 @@ class XPathMap(XPathFunction):
         elif len(sequence_types) != 2:
             return False
 
+        # A map is a function(xs:anyAtomicType) as V?: the parameter type of the test
+        # has to be a subtype of xs:anyAtomicType, whatever the keys of the map are,
+        # the result type has to accept the empty sequence and every value of the map.
         key_st, value_st = sequence_types
-        if key_st.endswith(('+', '*')):
+        if not is_sequence_type_restriction('xs:anyAtomicType', key_st):
             return False
         elif value_st != 'empty-sequence()' and not value_st.endswith(('?', '*')):
             return False
         else:
-            return any(match_sequence_type(k, key_st, self.parser, False) and
-                       match_sequence_type(v, value_st, self.parser)
-                       for k, v in self.items())
+            return all(match_sequence_type(v, value_st, self.parser) for v in self.values())
